@@ -66,22 +66,26 @@ Proof.
   rewrite forallb_forall, Forall_forall. split; intros H x Hx; apply one_value_iff; auto.
 Qed.
 
-Lemma both_placed_iff e1 e2 : both_placed e1 e2 = true <-> has_place e1 /\ has_place e2.
+Section Local.
+Variable fx : fixes.
+Variable fclose : list N -> list N -> bool.
+
+Lemma both_placed_iff e1 e2 : both_placed fx e1 e2 = true <-> has_place fx e1 /\ has_place fx e2.
 Proof. unfold both_placed, has_place. rewrite andb_true_iff, !negb_true_iff. tauto. Qed.
 
 (* ------------------------------------------------------------------ 21 15 16 *)
 Lemma check21_types op e1 e2 l r : In r (check21 op e1 e2 l) -> r_ty r = 21.
 Proof. unfold check21. destruct (_ && _); [intros [<-|[]]; reflexivity|intros []]. Qed.
-Lemma check15_types op e1 e2 r : In r (check15 op e1 e2) -> r_ty r = 15.
+Lemma check15_types op e1 e2 r : In r (check15 fx op e1 e2) -> r_ty r = 15.
 Proof. unfold check15. destruct (_ && _); [intros [<-|[]]; reflexivity|intros []]. Qed.
-Lemma check16_types op e1 e2 r : In r (check16 op e1 e2) -> r_ty r = 16.
+Lemma check16_types op e1 e2 r : In r (check16 fx op e1 e2) -> r_ty r = 16.
 Proof. unfold check16. destruct (_ && _); [intros [<-|[]]; reflexivity|intros []]. Qed.
-Lemma check14_types op e1 e2 r : In r (check14 op e1 e2) -> r_ty r = 14.
+Lemma check14_types op e1 e2 r : In r (check14 fx fclose op e1 e2) -> r_ty r = 14.
 Proof.
   unfold check14. destruct (cmp_op op); [|intros []].
   destruct (has_hash (exp_name e1)); [intros []|].
   destruct (has_hash (exp_name e2)); [intros []|].
-  destruct (_ && _); [intros [<-|[]]; reflexivity|intros []].
+  destruct (_ && _ && _); [intros [<-|[]]; reflexivity|intros []].
 Qed.
 
 Lemma not_reported_other ty L rs t :
@@ -90,7 +94,7 @@ Proof. intros Hall Hne [r [Hin [Hty _]]]. apply Hne. rewrite <- Hty. auto. Qed.
 
 (* what binop_checks says about one type = what the check of that type says *)
 Lemma binop_checks_21 op e1 e2 l L :
-  reported 21 L (binop_checks op e1 e2 l) <-> reported 21 L (check21 op e1 e2 l).
+  reported 21 L (binop_checks fx fclose op e1 e2 l) <-> reported 21 L (check21 op e1 e2 l).
 Proof.
   unfold binop_checks. rewrite !reported_app. split; [|tauto].
   intros [H|[H|[H|H]]]; auto; exfalso; revert H.
@@ -99,7 +103,7 @@ Proof.
   - apply not_reported_other with (t := 14); [apply check14_types|discriminate].
 Qed.
 Lemma binop_checks_15 op e1 e2 l L :
-  reported 15 L (binop_checks op e1 e2 l) <-> reported 15 L (check15 op e1 e2).
+  reported 15 L (binop_checks fx fclose op e1 e2 l) <-> reported 15 L (check15 fx op e1 e2).
 Proof.
   unfold binop_checks. rewrite !reported_app. split; [|tauto].
   intros [H|[H|[H|H]]]; auto; exfalso; revert H.
@@ -108,7 +112,7 @@ Proof.
   - apply not_reported_other with (t := 14); [apply check14_types|discriminate].
 Qed.
 Lemma binop_checks_16 op e1 e2 l L :
-  reported 16 L (binop_checks op e1 e2 l) <-> reported 16 L (check16 op e1 e2).
+  reported 16 L (binop_checks fx fclose op e1 e2 l) <-> reported 16 L (check16 fx op e1 e2).
 Proof.
   unfold binop_checks. rewrite !reported_app. split; [|tauto].
   intros [H|[H|[H|H]]]; auto; exfalso; revert H.
@@ -117,7 +121,7 @@ Proof.
   - apply not_reported_other with (t := 14); [apply check14_types|discriminate].
 Qed.
 Lemma binop_checks_14 op e1 e2 l L :
-  reported 14 L (binop_checks op e1 e2 l) <-> reported 14 L (check14 op e1 e2).
+  reported 14 L (binop_checks fx fclose op e1 e2 l) <-> reported 14 L (check14 fx fclose op e1 e2).
 Proof.
   unfold binop_checks. rewrite !reported_app. split; [|tauto].
   intros [H|[H|[H|H]]]; auto; exfalso; revert H.
@@ -127,7 +131,7 @@ Proof.
 Qed.
 
 Lemma t21_iff op e1 e2 l L :
-  reported 21 L (binop_checks op e1 e2 l) <-> Pattern21 op e1 e2 /\ L = l.
+  reported 21 L (binop_checks fx fclose op e1 e2 l) <-> Pattern21 op e1 e2 /\ L = l.
 Proof.
   rewrite binop_checks_21. unfold check21, Pattern21.
   rewrite reported_if, reported_one, andb_true_iff, !orb_true_iff, !tk_eqb_eq, !is_float_iff.
@@ -135,8 +139,8 @@ Proof.
 Qed.
 
 Lemma t15_iff op e1 e2 l L :
-  reported 15 L (binop_checks op e1 e2 l)
-  <-> Pattern15 op e1 e2 /\ has_place e1 /\ has_place e2 /\ L = operands_loc e1 e2.
+  reported 15 L (binop_checks fx fclose op e1 e2 l)
+  <-> Pattern15 op e1 e2 /\ has_place fx e1 /\ has_place fx e2 /\ L = operands_loc fx e1 e2.
 Proof.
   rewrite binop_checks_15. unfold check15, Pattern15.
   rewrite reported_if, reported_one, !andb_true_iff, orb_true_iff, tk_eqb_eq, !is_true_iff, both_placed_iff.
@@ -144,8 +148,8 @@ Proof.
 Qed.
 
 Lemma t16_iff op e1 e2 l L :
-  reported 16 L (binop_checks op e1 e2 l)
-  <-> Pattern16 op e1 e2 /\ has_place e1 /\ has_place e2 /\ L = operands_loc e1 e2.
+  reported 16 L (binop_checks fx fclose op e1 e2 l)
+  <-> Pattern16 op e1 e2 /\ has_place fx e1 /\ has_place fx e2 /\ L = operands_loc fx e1 e2.
 Proof.
   rewrite binop_checks_16. unfold check16, Pattern16.
   rewrite reported_if, reported_one, !andb_true_iff, orb_true_iff, tk_eqb_eq, !is_false_iff, both_placed_iff.
@@ -153,33 +157,33 @@ Proof.
 Qed.
 
 (* the place: GetExpLoc = the node's own Loc except for nil / BadExpr *)
-Definition located (e : exp) : Prop := get_exp_loc e = exp_loc e /\ exp_loc e <> zero_loc.
-Lemma located_has_place e : located e -> has_place e.
+Definition located (e : exp) : Prop := get_exp_loc fx e = exp_loc e /\ exp_loc e <> zero_loc.
+Lemma located_has_place e : located e -> has_place fx e.
 Proof.
   intros [H1 H2]. unfold has_place, is_initial_loc. rewrite H1.
   destruct (loc_eqb (exp_loc e) zero_loc) eqn:E; auto. apply loc_eqb_eq in E. contradiction.
 Qed.
-Lemma located_operands e1 e2 : located e1 -> located e2 -> operands_loc e1 e2 = span (exp_loc e1) (exp_loc e2).
+Lemma located_operands e1 e2 : located e1 -> located e2 -> operands_loc fx e1 e2 = span (exp_loc e1) (exp_loc e2).
 Proof. intros [H1 _] [H2 _]. unfold operands_loc, range_loc, span. rewrite H1, H2. reflexivity. Qed.
 
 Lemma t15_iff_guarded op e1 e2 l L :
   located e1 -> located e2 ->
-  (reported 15 L (binop_checks op e1 e2 l) <-> Pattern15 op e1 e2 /\ L = span (exp_loc e1) (exp_loc e2)).
+  (reported 15 L (binop_checks fx fclose op e1 e2 l) <-> Pattern15 op e1 e2 /\ L = span (exp_loc e1) (exp_loc e2)).
 Proof.
   intros G1 G2. rewrite t15_iff, (located_operands _ _ G1 G2).
   pose proof (located_has_place _ G1). pose proof (located_has_place _ G2). tauto.
 Qed.
 Lemma t16_iff_guarded op e1 e2 l L :
   located e1 -> located e2 ->
-  (reported 16 L (binop_checks op e1 e2 l) <-> Pattern16 op e1 e2 /\ L = span (exp_loc e1) (exp_loc e2)).
+  (reported 16 L (binop_checks fx fclose op e1 e2 l) <-> Pattern16 op e1 e2 /\ L = span (exp_loc e1) (exp_loc e2)).
 Proof.
   intros G1 G2. rewrite t16_iff, (located_operands _ _ G1 G2).
   pose proof (located_has_place _ G1). pose proof (located_has_place _ G2). tauto.
 Qed.
 
 (* ------------------------------------------------------------------ 7 8 20 *)
-Lemma t7_iff fclose vars es l L :
-  reported 7 L (assign_checks fclose vars es l) <-> Pattern7 vars es /\ L = l.
+Lemma t7_iff vars es l L :
+  reported 7 L (assign_checks fx fclose vars es l) <-> Pattern7 vars es /\ L = l.
 Proof.
   unfold assign_checks, Pattern7.
   destruct (Nat.ltb (length vars) (length es)) eqn:E1.
@@ -216,9 +220,9 @@ Qed.
 Lemma Forall2_len {A B} (R : A -> B -> Prop) l1 l2 : Forall2 R l1 l2 -> length l1 = length l2.
 Proof. induction 1; cbn; auto. Qed.
 
-Lemma t20_iff fclose vars es l L :
-  reported 20 L (assign_checks fclose vars es l)
-  <-> Forall2 (fun v e => comp_exp fclose v e = true) vars es /\ L = l.
+Lemma t20_iff vars es l L :
+  reported 20 L (assign_checks fx fclose vars es l)
+  <-> Forall2 (fun v e => cmp fx fclose v e = true) vars es /\ L = l.
 Proof.
   unfold assign_checks.
   destruct (Nat.ltb (length vars) (length es)) eqn:E1.
@@ -229,6 +233,8 @@ Proof.
       split; [intros [_ [H _]]; discriminate|intros [H _]; apply Forall2_len in H; lia].
     + rewrite reported_if, reported_one, forallb2_Forall2. cbn [r_ty r_loc t_selfassign]. intuition.
 Qed.
+
+End Local.
 
 (* ------------------------------------------------------------------ 13 *)
 Lemma is_underscore_iff s : is_underscore s = true <-> s = [95].
@@ -296,13 +302,17 @@ Proof.
 Qed.
 
 (* ------------------------------------------------------------------ 19 (in terms of CompExp) *)
-Lemma if_later_iff fclose x rest ty L :
-  reported ty L (if_later fclose x rest)
-  <-> ty = 19 /\ exists j c, nth_error rest j = Some c /\ comp_exp fclose x c = true /\ get_exp_loc c = L.
+Section Local19.
+Variable fx : fixes.
+Variable fclose : list N -> list N -> bool.
+
+Lemma if_later_iff x rest ty L :
+  reported ty L (if_later fx fclose x rest)
+  <-> ty = 19 /\ exists j c, nth_error rest j = Some c /\ cmp fx fclose x c = true /\ get_exp_loc fx c = L.
 Proof.
   induction rest as [|y r IH]; cbn [if_later flat_map].
   - split; [intros H; exfalso; eapply reported_nil; eauto|intros [_ [j [c [H _]]]]; destruct j; discriminate].
-  - fold (if_later fclose x r). rewrite reported_app, IH, reported_if, reported_one. cbn [r_ty r_loc t_dupif]. split.
+  - fold (if_later fx fclose x r). rewrite reported_app, IH, reported_if, reported_one. cbn [r_ty r_loc t_dupif]. split.
     + intros [[Hc [Ht Hl]]|[Ht [j [c [Hj Hc]]]]]; split; auto.
       * exists O, y. auto.
       * exists (S j), c. auto.
@@ -311,10 +321,10 @@ Proof.
       * right. split; auto. exists j, c. auto.
 Qed.
 
-Lemma t19_iff fclose es L :
-  reported 19 L (if_checks fclose es)
-  <-> exists j c, nth_error es j = Some c /\ get_exp_loc c = L /\
-                  exists i c', (i < j)%nat /\ nth_error es i = Some c' /\ comp_exp fclose c' c = true.
+Lemma t19_iff es L :
+  reported 19 L (if_checks fx fclose es)
+  <-> exists j c, nth_error es j = Some c /\ get_exp_loc fx c = L /\
+                  exists i c', (i < j)%nat /\ nth_error es i = Some c' /\ cmp fx fclose c' c = true.
 Proof.
   induction es as [|x r IH]; cbn [if_checks].
   - split; [intros H; exfalso; eapply reported_nil; eauto|intros [j [c [H _]]]; destruct j; discriminate].
@@ -328,7 +338,12 @@ Proof.
       * right. exists j, c. repeat split; auto. exists i, c'. repeat split; auto; lia.
 Qed.
 
+End Local19.
+
 (* ------------------------------------------------------------------ 5 (in terms of the key strings of the code) *)
+Section Local5.
+Variable fx : fixes.
+
 Lemma mem_bytes_iff x l : mem_bytes x l = true <-> In x l.
 Proof.
   induction l as [|y t IH]; cbn; [split; [discriminate|tauto]|].
@@ -338,7 +353,7 @@ Qed.
 (* the key string the code files key number i under, if any *)
 Definition code_key (parent : loc) (k : option exp) : option (list N * loc) :=
   match k with
-  | Some ke => match key_str ke parent with
+  | Some ke => match key_str fx ke parent with
                | Some (key, _, l) => match key with [] => None | _ => Some (key, l) end
                | None => None
                end
@@ -346,7 +361,7 @@ Definition code_key (parent : loc) (k : option exp) : option (list N * loc) :=
   end.
 
 Lemma table_checks_iff ks parent seen ty L :
-  reported ty L (table_checks ks parent seen)
+  reported ty L (table_checks fx ks parent seen)
   <-> ty = 5 /\ exists j key, option_map (code_key parent) (nth_error ks j) = Some (Some (key, L)) /\
                    (In key seen \/ exists i l', (i < j)%nat /\
                                            option_map (code_key parent) (nth_error ks i) = Some (Some (key, l'))).
@@ -355,7 +370,7 @@ Proof.
   - split; [intros H; exfalso; eapply reported_nil; eauto|intros [_ [j [key [H _]]]]; destruct j; discriminate].
   - (* one step: relate the head to code_key *)
     assert (Hskip : code_key parent k = None ->
-                    (reported ty L (table_checks r parent seen) <->
+                    (reported ty L (table_checks fx r parent seen) <->
                      ty = 5 /\ exists j key, option_map (code_key parent) (nth_error (k :: r) j) = Some (Some (key, L)) /\
                        (In key seen \/ exists i l', (i < j)%nat /\
                           option_map (code_key parent) (nth_error (k :: r) i) = Some (Some (key, l'))))).
@@ -368,7 +383,7 @@ Proof.
         destruct Hor as [Hs|[i [l' [Hlt Hi]]]]; auto. right.
         destruct i as [|i]; cbn in Hi; [rewrite Hk in Hi; discriminate|]. exists i, l'. split; auto; lia. }
     destruct k as [ke|]; [|apply Hskip; reflexivity].
-    destruct (key_str ke parent) as [[[key show] l]|] eqn:Ek; [|apply Hskip; cbn; rewrite Ek; reflexivity].
+    destruct (key_str fx ke parent) as [[[key show] l]|] eqn:Ek; [|apply Hskip; cbn; rewrite Ek; reflexivity].
     destruct key as [|c key']; [apply Hskip; cbn; rewrite Ek; reflexivity|].
     assert (Hck : code_key parent (Some ke) = Some (c :: key', l)) by (cbn; rewrite Ek; reflexivity).
     destruct (mem_bytes (c :: key') seen) eqn:Em.
@@ -402,7 +417,7 @@ Proof.
 Qed.
 
 Lemma t5_iff ks parent L :
-  reported 5 L (table_checks ks parent [])
+  reported 5 L (table_checks fx ks parent [])
   <-> exists j key, option_map (code_key parent) (nth_error ks j) = Some (Some (key, L)) /\
         exists i l', (i < j)%nat /\ option_map (code_key parent) (nth_error ks i) = Some (Some (key, l')).
 Proof.
@@ -410,3 +425,4 @@ Proof.
   - intros [_ [j [key [Hj [[]|H]]]]]. eauto.
   - intros [j [key [Hj H]]]. split; auto. exists j, key. auto.
 Qed.
+End Local5.
